@@ -428,6 +428,7 @@ func errShort(err error) string {
 
 // ---------------------------------------------------------------- classification helpers
 
+var labelJoinWord = regexp.MustCompile(`\bjoin\b`)
 var labelSimpleRef = regexp.MustCompile(`(?i)\bFROM\s+([a-zA-Z_][a-zA-Z0-9_]*)\b`)
 var labelCTE = regexp.MustCompile(`(?i)\bWITH\s+(?:RECURSIVE\s+)?(\w+)(?:\s*\([^)]*\))?\s+AS\s*\(|,\s*(\w+)(?:\s*\([^)]*\))?\s+AS\s*\(`)
 var lateralNL = regexp.MustCompile(`\blateral[ \t]*[\n\r][\s]*\(`)
@@ -443,10 +444,10 @@ func esc(s string) string {
 // (only used to LABEL statements; the verdicts never depend on it).
 func fastEligible(s string) bool {
 	l := strings.ToLower(s)
-	if strings.Count(l, "from ") != 1 || strings.Contains(l, " join ") || strings.Contains(l, "with ") {
+	if strings.Count(l, "from ") != 1 || labelJoinWord.MatchString(l) || strings.Contains(l, "with ") {
 		return false
 	}
-	rest := strings.TrimLeft(l[strings.Index(l, "from ")+5:], " \t\n")
+	rest := strings.TrimLeft(l[strings.Index(l, "from ")+5:], " \t\r\n")
 	if len(rest) > 0 && rest[0] == '(' {
 		return false
 	}
@@ -467,9 +468,8 @@ func classOf(b *qb, hdr string) string {
 	}
 	// structural classes first (they can co-occur with any generated shape)
 	text := render(b.toks)
-	if n := len(b.toks); n >= 2 && b.toks[n-2].k == 'b' && len(b.toks[n-1].s) == 1 {
-		return "comment-before-last-byte"
-	}
+	// (comment-before-last-byte, lateral-newline, fastpath-cr, with-newline are fixed in /repo: no structural class any
+	// more; their corpus statements keep the label and must agree — any key of those classes is a regression)
 	// the text the reference patterns see: literals masked, comments stripped
 	var sb strings.Builder
 	for _, t := range b.toks {
@@ -484,9 +484,8 @@ func classOf(b *qb, hdr string) string {
 		}
 	}
 	stripped := strings.ToLower(sb.String())
-	if lateralNL.MatchString(stripped) {
-		return "lateral-newline"
-	}
+	_ = lateralNL
+	_ = stripped
 	if hdr != "" {
 		nbase := 0
 		for _, r := range b.refs {
@@ -494,13 +493,8 @@ func classOf(b *qb, hdr string) string {
 				nbase++
 			}
 		}
-		if fastEligible(text) {
-			l := strings.ToLower(text)
-			rest := strings.TrimLeft(l[strings.Index(l, "from ")+5:], " \t\n")
-			if strings.HasPrefix(rest, "\r") {
-				return "fastpath-cr"
-			}
-		}
+		// (no structural fastpath-cr class any more: fixed by /repo 002a8ca; the corpus statement keeps the label as a
+		// regression monitor)
 		nfrom := 0
 		for _, t := range b.toks {
 			if t.k == 'w' && strings.EqualFold(t.s, "from") {
